@@ -309,3 +309,21 @@ def run(ck):
     ck.ob("C08-R6", "handleTimer/settle-or-close", not bad, tm.loc, tm,
           "every path settles entry.deferred or closes entry.fd" if not bad else
           "a path (ending in block %s) drops the entry without settling its deferred or closing its timerfd: the descriptor leaks" % bad[0].block)
+
+    # ---------------- R10: a disarmed response timer still fires (that is where it is closed) ----------------
+    ck.rule("C08-R10", "D who-may-call",
+            "inside the transport only armTimerMsImpl programs a timerfd (timerfd_settime): a timer that was disarmed is closed by "
+            "handleTimer when it fires, so nothing else may stop or re-program it in the kernel — a stopped timer never fires and its "
+            "descriptor and table entry are never released", 1)
+    nts = 0
+    for fn_ in prog.library_funcs():
+        if not fn_.file.endswith("/common/transport.cc"):
+            continue
+        for e in fn_.calls(lambda e: libc(e, "timerfd_settime")):
+            nts += 1
+            ok_ = lib.only_reached_from(prog, fn_, {T + "armTimerMsImpl"})
+            ck.ob("C08-R10", "timerfd_settime in %s" % prog.owner(fn_).base.replace(T, ""), ok_, e.loc, fn_,
+                  "the timer is programmed where it is armed" if ok_ else
+                  "%s re-programs the kernel timer: if that stops a disarmed timer it never fires, and handleTimer — the only place that closes "
+                  "a disarmed timerfd — is never reached for it" % prog.owner(fn_).base.rsplit("::", 1)[1])
+    ck.require(nts >= 1, "timerfd_settime not found in transport.cc")
